@@ -103,7 +103,12 @@ def distance_to_detector(beta_tr, z, z_det, earth_radius):
         DeprecationWarning,
         stacklevel=2,
     )
-    theta_view = viewing_angle(beta_tr, z_det, earth_radius)
+    # in double whatever the caller's working precision: ang_e is a difference of angles
+    # near pi/2 and single precision loses the distance of a shower close to the detector
+    beta_tr = np.asarray(beta_tr, dtype=np.float64)
+    z = np.asarray(z, dtype=np.float64)
+    earth_radius = np.float64(earth_radius)
+    theta_view = viewing_angle(beta_tr, np.float64(z_det), earth_radius)
     theta_prop = propagation_angle(beta_tr, z, earth_radius)
     ang_e = 0.5 * np.pi - theta_view - theta_prop
     return np.sin(ang_e) / np.sin(theta_view) * (z + earth_radius)
